@@ -330,3 +330,138 @@ Proof.
     + destruct (Nat.eq_dec (length vs + length gs) 6); [left; apply Z.eqb_eq; lia|].
       right. apply andb_true_iff. split; [apply Z.ltb_lt|apply Z.leb_le]; lia.
 Qed.
+
+Lemma join_cons_app g gs : exists X, join (g :: gs) = g ++ X.
+Proof. destruct gs as [|g2 gs]; [exists []; cbn [join]; now rewrite app_nil_r|]. eexists. reflexivity. Qed.
+
+Lemma start6_join gs vs t : Forall2 hexgroup gs vs -> gs <> [] ->
+  start6 (join gs ++ t) = Some (join gs ++ t).
+Proof.
+  intros HF Hne. destruct HF as [|g v gs vs Hg HF]; [contradiction|].
+  destruct (join_cons_app g gs) as [X ->].
+  destruct (hexgroup_head _ _ Hg) as (c0 & g' & d & -> & Hd).
+  cbn [app]. eapply start6_hex, Hd.
+Qed.
+
+Lemma start6_comp pre vpre t : Forall2 hexgroup pre vpre ->
+  start6 (join pre ++ 58%N :: 58%N :: t) = Some (groups_colon pre ++ ch_colon :: t).
+Proof.
+  intros HF. destruct pre as [|g0 pre0] eqn:Ep; [reflexivity|].
+  rewrite <- Ep in *. assert (Hne : pre <> []) by (rewrite Ep; discriminate).
+  rewrite (start6_join _ _ _ HF Hne). f_equal.
+  destruct (exists_last Hne) as (p0 & g & ->).
+  rewrite join_snoc, groups_colon_snoc. rewrite <- !app_assoc. reflexivity.
+Qed.
+
+Lemma finish_full strict vs i : i = Z.of_nat (length vs) -> length vs = 8%nat ->
+  finish strict i (-1) (wr vs) = POk (map Some vs).
+Proof.
+  intros -> H. unfold finish. rewrite H. change (Z.of_nat 8 <? 8) with false.
+  rewrite andb_false_r. change (0 <=? -1) with false. cbv iota. now rewrite wr_full.
+Qed.
+
+(* the prefix "g1:...:gk::" (k >= 0), after the optional leading-colon step *)
+Lemma gl_comp_prefix pre vpre : Forall2 hexgroup pre vpre -> (length pre <= 8)%nat ->
+  forall f t, (length (groups_colon pre ++ ch_colon :: t) < f)%nat ->
+  exists f', (length t < f')%nat /\
+    group_loop f (groups_colon pre ++ ch_colon :: t) 0 (-1) words_init =
+    group_loop f' t (Z.of_nat (length vpre)) (Z.of_nat (length vpre)) (wr vpre).
+Proof.
+  intros HF Hl f t Hf. rewrite words_init_wr. change 0 with (Z.of_nat (length (@nil N))).
+  destruct (gl_groups_colon pre vpre HF f (ch_colon :: t) (-1) [] ltac:(discriminate) ltac:(cbn [length]; lia) Hf)
+    as (f1 & Hf1 & ->).
+  cbn [app]. cbn [length] in Hf1. destruct f1 as [|f2]; [lia|].
+  exists f2. split; [lia|]. rewrite group_loop_unfold. rewrite N.eqb_refl. reflexivity.
+Qed.
+
+Lemma accepts6 strict s ws : denotes6 s ws -> str_to_ipv6_gen strict s = POk (map Some ws).
+Proof.
+  intros H. unfold str_to_ipv6_gen.
+  destruct H as [gs vs HF Hlen | gs vs q a HF Hlen Hq
+                 | pre post vpre vpost HFa HFb Hlen | pre post vpre vpost q a HFa HFb Hq Hlen].
+  - (* x:x:x:x:x:x:x:x *)
+    assert (Hne : gs <> []) by (destruct gs; [discriminate Hlen|discriminate]).
+    rewrite <- (app_nil_r (join gs)) at 1. rewrite (start6_join _ _ _ HF Hne), app_nil_r.
+    rewrite words_init_wr. change 0 with (Z.of_nat (length (@nil N))).
+    rewrite (gl_join gs vs HF Hne) by (cbn [length]; lia). cbn [app].
+    apply finish_full; [reflexivity|]. rewrite <- (F2_length _ _ _ HF). exact Hlen.
+  - (* x:x:x:x:x:x:d.d.d.d *)
+    assert (Hne : gs ++ [q] <> []) by (destruct gs; discriminate).
+    assert (Hne' : gs <> []) by (destruct gs; [discriminate Hlen|discriminate]).
+    assert (Hst : start6 (join (gs ++ [q])) = Some (join (gs ++ [q]))).
+    { rewrite join_snoc. destruct gs as [|g gs']; [contradiction|]. inversion HF as [|? v ? vs' Hg HF']; subst.
+      rewrite groups_colon_cons. destruct (hexgroup_head _ _ Hg) as (c0 & g' & d & -> & Hd).
+      cbn [app]. eapply start6_hex, Hd. }
+    rewrite Hst. rewrite words_init_wr. change 0 with (Z.of_nat (length (@nil N))).
+    rewrite (gl_join_quad gs vs q a HF Hq) by (cbn [length]; lia). cbn [app].
+    pose proof (F2_length _ _ _ HF) as HL.
+    replace (Z.of_nat (length vs) + 2) with (Z.of_nat (length (vs ++ [(a / 65536)%N; (a mod 65536)%N])))
+      by (rewrite app_length; cbn [length]; lia).
+    apply finish_full; [reflexivity|]. rewrite app_length. cbn [length]. lia.
+  - (* compressed *)
+    rewrite (start6_comp _ _ _ HFa).
+    pose proof (F2_length _ _ _ HFa) as HLa. pose proof (F2_length _ _ _ HFb) as HLb.
+    destruct (gl_comp_prefix pre vpre HFa ltac:(lia) (S (length (groups_colon pre ++ ch_colon :: join post)))
+                (join post) ltac:(lia)) as (f' & Hf' & ->).
+    destruct post as [|g post0] eqn:Ep.
+    + inversion HFb; subst. cbn [join] in *. destruct f' as [|f']; [cbn [length] in Hf'; lia|].
+      cbn [group_loop]. rewrite <- (app_nil_r vpre) at 3.
+      replace (Z.of_nat (length vpre)) with (Z.of_nat (length vpre + length (@nil N))) at 1
+        by (cbn [length]; lia).
+      rewrite finish_fill by (cbn [length]; lia). rewrite HLa. reflexivity.
+    + rewrite <- Ep in *. assert (Hne : post <> []) by (rewrite Ep; discriminate).
+      rewrite (gl_join post vpost HFb Hne) by lia.
+      rewrite app_length. rewrite finish_fill by lia. rewrite HLa, HLb. reflexivity.
+  - (* compressed, dotted quad at the end *)
+    rewrite (start6_comp _ _ _ HFa).
+    pose proof (F2_length _ _ _ HFa) as HLa. pose proof (F2_length _ _ _ HFb) as HLb.
+    destruct (gl_comp_prefix pre vpre HFa ltac:(lia) (S (length (groups_colon pre ++ ch_colon :: join (post ++ [q]))))
+                (join (post ++ [q])) ltac:(lia)) as (f' & Hf' & ->).
+    rewrite (gl_join_quad post vpost q a HFb Hq) by lia.
+    set (tail := vpost ++ [(a / 65536)%N; (a mod 65536)%N]).
+    assert (HLt : length tail = (length vpost + 2)%nat) by (unfold tail; rewrite app_length; cbn [length]; lia).
+    replace (Z.of_nat (length (vpre ++ vpost)) + 2) with (Z.of_nat (length vpre + length tail))
+      by (rewrite app_length; lia).
+    rewrite finish_fill by lia. rewrite HLt, HLa, HLb.
+    replace (8 - length vpre - (length vpost + 2))%nat with (6 - length vpre - length vpost)%nat by lia.
+    reflexivity.
+Qed.
+
+(* ---- ip.c: the family is chosen by the presence of ':' ------------------------- *)
+Lemma digits_no_colon o : forallb dec_char o = true -> existsb (N.eqb ch_colon) o = false.
+Proof.
+  induction o as [|c o IH]; [reflexivity|]. cbn [forallb existsb]. intros H.
+  apply andb_true_iff in H as [Hc Ho]. rewrite (IH Ho), orb_false_r.
+  unfold dec_char in Hc. apply andb_true_iff in Hc as [_ Hc]. apply N.leb_le in Hc.
+  apply N.eqb_neq. unfold ch_colon. lia.
+Qed.
+
+Lemma denotes4_no_colon s a : denotes4 s a -> existsb (N.eqb ch_colon) s = false.
+Proof.
+  intros [o0 o1 o2 o3 ? ? ? ? (_ & H0 & _) (_ & H1 & _) (_ & H2 & _) (_ & H3 & _)].
+  repeat (rewrite existsb_app; cbn [existsb]).
+  rewrite !digits_no_colon by assumption. reflexivity.
+Qed.
+
+Lemma has_colon_app l r : existsb (N.eqb ch_colon) (l ++ ch_colon :: r) = true.
+Proof. rewrite existsb_app. cbn [existsb]. rewrite N.eqb_refl. cbn [orb]. apply orb_true_r. Qed.
+
+Lemma join_two_colon g1 g2 gs : existsb (N.eqb ch_colon) (join (g1 :: g2 :: gs)) = true.
+Proof. cbn [join]. apply has_colon_app. Qed.
+
+Lemma denotes6_has_colon s ws : denotes6 s ws -> existsb (N.eqb ch_colon) s = true.
+Proof.
+  intros [gs vs HF Hlen | gs vs q a HF Hlen Hq | pre post vpre vpost _ _ _ | pre post vpre vpost q a _ _ _ _].
+  - destruct gs as [|g1 [|g2 gs]]; try discriminate Hlen. apply join_two_colon.
+  - destruct gs as [|g1 [|g2 gs]]; try discriminate Hlen. apply join_two_colon.
+  - apply has_colon_app.
+  - apply has_colon_app.
+Qed.
+
+Lemma accepts strict s a : denotes s a ->
+  str_to_ip_gen strict s = match a with A4 x => IV4 x | A6 ws => IV6 (map Some ws) end.
+Proof.
+  intros [s' x H|s' ws H]; unfold str_to_ip_gen.
+  - now rewrite (denotes4_no_colon _ _ H), (accepts4 _ _ H).
+  - now rewrite (denotes6_has_colon _ _ H), (accepts6 strict _ _ H).
+Qed.
